@@ -133,8 +133,12 @@ func TransportPair(kind string, bufSize int) (ct, st lime.Transport, p *Pair, er
 			return
 		}
 		st, err = l.Accept(ctx)
-	case "mem", "memtls":
-		c, s := memconn.Pipe(0)
+	case "mem", "memtls", "memb":
+		capacity := 0
+		if kind == "memb" {
+			capacity = 8192 // a connection with small buffers: a peer that stops reading blocks the writer soon
+		}
+		c, s := memconn.Pipe(capacity)
 		p.MemC, p.MemS = c, s
 		var ccfg, scfg *lime.TCPConfig
 		if kind == "memtls" {
